@@ -97,6 +97,19 @@ def run(chk, binary):
         if rng.random() < 0.35:
             # fill a register first (for puts and for upper-case appends)
             pre = [rng.choice(['"ayiw', "yiw", "yy", '"byy', '"zyw', '"ay$'])]
+        if rng.random() < 0.3:
+            # an earlier history (counts, sessions, undo, dot, visual operators): what it leaves behind in the editor
+            # must not change what the command under test does to text and registers
+            hist = [rng.choice(["3p", "2P", "3ix<esc>", "2oab<esc>", "3J", "3x", "2dw", "3~", "2rZ", "xu", "x3.", "5l", "vjd", "Vy", "ddu", "<c-v>jly", '"ayy3"ap', "yiw2P", "3u", "Vg?."])
+                    if rng.random() < 0.7 else V.edit(rng) for _ in range(rng.randint(1, 2))]
+            pre = hist + pre
+            r2 = rng.random()
+            if r2 < 0.2:
+                # the command under test is a repeat of an earlier visual or counted operator
+                pre = pre + [rng.choice(["GVg?", "Vjgu", "vlg~", "GVgU", "Vd", "vey", "3x", "dw", "Vg?", "G$vbg?"])]
+                cls, cmd = "dot", rng.choice([".", ".", "2.", "3."])
+            elif r2 < 0.45:
+                cls, cmd = "put", rng.choice(["p", "P", '"ap', '"aP'])
         keys = pre + [cmd]
         twin = None
         if cls == "y":
@@ -174,6 +187,8 @@ def run(chk, binary):
                 kind, t = reg_text(regs_after, name)
                 if kind == "block":
                     continue
+                if reg_text(regs_before, name) == (kind, t) and not upper:
+                    continue        # the motion failed (or yanked the very same text): the register is what the history left
                 piece = t
                 if upper:
                     _, old = reg_text(regs_before, name)
@@ -188,7 +203,8 @@ def run(chk, binary):
                 kind, t = reg_text(regs_before, name)
                 if kind == "block" or t == "":
                     continue
-                cands = [t, "\n" + t] if kind == "line" else [t]
+                nput = max(1, int(c.get("vcount") or 1))       # the count the command carries (a repeated put carries its own)
+                cands = [t * nput, "\n" + t * nput] if kind == "line" else [t * nput]
                 ok_ = False
                 for ins in cands:
                     for j in range(len(before) + 1):
